@@ -173,8 +173,8 @@ PROPS = {
     ),
     "C12": dict(
         level="proof",
-        modules=["Exmex.Props.Reach", "Exmex.Props.C12", "Exmex.Props.C12Lex", "Exmex.Props.C13Lex", "Exmex.Props.C02"],
-        theorems=["Exmex.Reach.reach_inv", "Exmex.C12.flat_parse_text", "Exmex.C12.unparse_eq_render", "Exmex.C12.topChain_denote", "Exmex.C12.unparse_parse_sound",
+        modules=["Exmex.Props.Reach", "Exmex.Props.ReachCorollaries", "Exmex.Props.C12", "Exmex.Props.C12Lex", "Exmex.Props.C13Lex", "Exmex.Props.C02"],
+        theorems=["Exmex.Reach.reach_inv", "Exmex.Reach.reach_unparse_parse_sound", "Exmex.C12.flat_parse_text", "Exmex.C12.unparse_eq_render", "Exmex.C12.topChain_denote", "Exmex.C12.unparse_parse_sound",
                   "Exmex.C12.tokenize_unparse", "Exmex.C12.unparse_parse_sound'",
                   "Exmex.C12.shape_of_named", "Exmex.C13.tokenize_render_spaced"],
         level_text=("kernel-checked: flat_parse_text (a parsed flat expression keeps exactly its source text); unparse_eq_render (the text printed by a deep expression is the "
@@ -220,8 +220,8 @@ PROPS = {
     ),
     "C10": dict(
         level="proof",
-        modules=["Exmex.Props.Reach", "Exmex.Props.C10", "Exmex.Props.C10Shortcuts", "Exmex.Proofs.WrapOK", "Exmex.Props.C02Deep", "Exmex.Props.C03"],
-        theorems=["Exmex.Reach.reach_inv", "Exmex.C10.resetVars_sound", "Exmex.C10.operateBin_sound", "Exmex.C10.operateUnary_sound", "Exmex.C10.operateBin_unknown",
+        modules=["Exmex.Props.Reach", "Exmex.Props.ReachCorollaries", "Exmex.Props.C10", "Exmex.Props.C10Shortcuts", "Exmex.Proofs.WrapOK", "Exmex.Props.C02Deep", "Exmex.Props.C03"],
+        theorems=["Exmex.Reach.reach_inv", "Exmex.Reach.reach_operateBin_sound", "Exmex.Reach.reach_mul_sound", "Exmex.C10.resetVars_sound", "Exmex.C10.operateBin_sound", "Exmex.C10.operateUnary_sound", "Exmex.C10.operateBin_unknown",
                   "Exmex.C10.add_sound", "Exmex.C10.mul_sound", "Exmex.C10.div_sound", "Exmex.C10.pow_sound", "Exmex.C10.sub_sound", "Exmex.C10.neg_sound",
                   "Exmex.C10.operateUnary_yields", "Exmex.Shortcut.compile_folded", "Exmex.Shortcut.operateBin_folded", "Exmex.Shortcut.wrapOK_of_folded",
                   "Exmex.C02.deep_new_sound", "Exmex.C02.deep_compile_sound", "Exmex.C03.fromDeep_sound"],
@@ -240,8 +240,8 @@ PROPS = {
     ),
     "C11": dict(
         level="proof",
-        modules=["Exmex.Props.Reach", "Exmex.Props.C11", "Exmex.Props.C02Deep", "Exmex.Props.C03"],
-        theorems=["Exmex.Reach.reach_inv", "Exmex.C11.subs_sound", "Exmex.C11.subs_none", "Exmex.C11.subs_sound_gen", "Exmex.C11.subs_listed", "Exmex.C02.deep_compile_sound", "Exmex.C03.fromDeep_sound"],
+        modules=["Exmex.Props.Reach", "Exmex.Props.ReachCorollaries", "Exmex.Props.C11", "Exmex.Props.C02Deep", "Exmex.Props.C03"],
+        theorems=["Exmex.Reach.reach_inv", "Exmex.Reach.reach_subs_sound", "Exmex.C11.subs_sound", "Exmex.C11.subs_none", "Exmex.C11.subs_sound_gen", "Exmex.C11.subs_listed", "Exmex.C02.deep_compile_sound", "Exmex.C03.fromDeep_sound"],
         level_text=("kernel-checked for the deep form: subs_sound (the result lists exactly the sorted, duplicate-free union of the untouched variables and the replacements' variables, "
                     "and its value under every environment is the value of the original with each replaced variable bound to the value of its replacement - simultaneous, "
                     "replacements not re-substituted, self-referential replacements included), subs_none (nothing replaced: same variables, same function), subs_listed (the "
@@ -258,8 +258,8 @@ PROPS = {
     ),
     "C05": dict(
         level="proof",
-        modules=["Exmex.Props.Reach", "Exmex.Props.C05", "Exmex.Props.C09", "Exmex.Props.C02Deep", "Exmex.Props.C03"],
-        theorems=["Exmex.Reach.reach_inv", "Exmex.C05.partial_sound", "Exmex.C05.partial_norule", "Exmex.C05.Demo.demo", "Exmex.C09.partial_preserves", "Exmex.C09.partialIter_sound_single",
+        modules=["Exmex.Props.Reach", "Exmex.Props.ReachCorollaries", "Exmex.Props.C05", "Exmex.Props.C09", "Exmex.Props.C02Deep", "Exmex.Props.C03"],
+        theorems=["Exmex.Reach.reach_inv", "Exmex.Reach.reach_partial_sound", "Exmex.C05.partial_sound", "Exmex.C05.partial_norule", "Exmex.C05.Demo.demo", "Exmex.C09.partial_preserves", "Exmex.C09.partialIter_sound_single",
                   "Exmex.C09.flat_partialIter_single_sound", "Exmex.C02.deep_compile_sound", "Exmex.C03.fromDeep_sound"],
         level_text=("kernel-checked (partial_sound): for every deep expression over + - * / ^ and the differentiable unary operators, every variable index and every "
                     "assignment, the expression returned by partial differentiation has the same variable list and evaluates to the derivative component of evaluating the "
@@ -278,8 +278,8 @@ PROPS = {
     ),
     "C09": dict(
         level="proof",
-        modules=["Exmex.Props.Reach", "Exmex.Props.C09", "Exmex.Props.C05", "Exmex.Props.C02Deep", "Exmex.Props.C03"],
-        theorems=["Exmex.Reach.reach_inv", "Exmex.C09.partial_vars", "Exmex.C09.partial_preserves", "Exmex.C09.partialIter_index_error", "Exmex.C09.partialIter_ok_inrange",
+        modules=["Exmex.Props.Reach", "Exmex.Props.ReachCorollaries", "Exmex.Props.C09", "Exmex.Props.C05", "Exmex.Props.C02Deep", "Exmex.Props.C03"],
+        theorems=["Exmex.Reach.reach_inv", "Exmex.Reach.reach_partial_vars", "Exmex.C09.partial_vars", "Exmex.C09.partial_preserves", "Exmex.C09.partialIter_index_error", "Exmex.C09.partialIter_ok_inrange",
                   "Exmex.C09.partialIter_nil", "Exmex.C09.partialIter_nil_sound", "Exmex.C09.partialIter_cons", "Exmex.C09.partialIter_replicate_succ",
                   "Exmex.C09.partialIter_sound_single", "Exmex.C09.partialIter_vars", "Exmex.C09.flat_partialIter_single_sound", "Exmex.C05.partial_sound"],
         level_text=("kernel-checked: partial_vars / partialIter_vars (a derivative lists exactly the variables of its antiderivative - purely structural, for any index "
@@ -332,13 +332,18 @@ PROPS = {
     ),
     "C06": dict(
         level="proof",
-        modules=["Exmex.Props.C07", "Exmex.Props.C14", "Exmex.Props.C02", "Exmex.Props.C02Deep"],
-        theorems=["Exmex.C14.evalNumbers_any_order", "Exmex.C02.compile_sound", "Exmex.C02.deep_compile_sound", "Exmex.C02.deep_new_sound"],
-        level_text=("Totality of the model is Lean's termination checker; absence of panic sites is proved for the evaluation core (any order, any size: C14), "
-                    "for flat and deep constant folding and DeepEx::new under the structural invariants; the token walker on canonical tokens (L6). "
-                    "The remaining entry points are covered by the correspondence run: exhaustive short strings over a 14-symbol alphabet, token soup, mutated texts, "
-                    "1000-token / depth-100 texts, every parsing entry point incl. f64, Val and statements under catch_unwind, follow-up calls on everything accepted; "
-                    "stack consumption is a run-time check (one call per child process on a 2 MiB thread)"),
+        modules=["Exmex.Props.C06Total", "Exmex.Props.C07", "Exmex.Props.C14", "Exmex.Props.C02", "Exmex.Props.C02Deep", "Exmex.Props.C17"],
+        theorems=["Exmex.C06.flat_parse_no_panic", "Exmex.C06.deep_parse_no_panic", "Exmex.C06.flat_eval_no_panic", "Exmex.C06.deep_eval_no_panic",
+                  "Exmex.C14.evalNumbers_any_order", "Exmex.C02.compile_sound", "Exmex.C02.deep_compile_sound", "Exmex.C02.deep_new_sound",
+                  "Exmex.C17.valBin_total", "Exmex.C17.valUn_total"],
+        level_text=("kernel-checked: the model has an explicit panic outcome at every indexing / unwrap / unsigned-subtraction site of the parsers, the folding loops, the "
+                    "bit trackers and the evaluators, and at the exhaustion of its own fuel. flat_parse_no_panic, deep_parse_no_panic: for EVERY text, operator table, literal "
+                    "matcher and interpretation - no hypothesis at all - parse, parse_wo_compile and DeepEx::parse return an expression or a proper error, never a panic (in "
+                    "particular the deep recursion always terminates within the model's fuel); flat_eval_no_panic, deep_eval_no_panic: evaluating anything they accept never "
+                    "panics (strict, relaxed, consuming entry points; any number of operands incl. the multi-word tracker). Val operators: valBin_total / valUn_total (C17). "
+                    "Outside the theorems and covered by the correspondence run: the faithfulness of the model's panic sites (exhaustive short strings over a 14-symbol alphabet, "
+                    "token soup, mutated texts, 1000-token / depth-100 texts, every parsing entry point incl. f64, Val and statements under catch_unwind, follow-up calls on "
+                    "everything accepted), panics inside user-supplied operator closures, allocation failure, and stack consumption (a run-time check: one call per child process on a 2 MiB thread; KNOWN-FINDING D11)"),
         rule="all strings up to length 4 (thorough: 5) over {a,1,.,+,-,*,s,m,(,),comma,{,},space} exhaustively; random strings, token soup with unicode/control characters, mutated well-formed texts, texts of ~1000 tokens nested up to 100 deep; 16 entry points x 4 depths x 4 nesting styles in isolated processes for stack use; non-trivial = text of at least 3 characters; distinct by request hash",
         kinds=[dict(kind="crashx", quick=41371, thorough=579195, corr=["r", "fu"], oracle_const=[("r", "[oe]{3}"), ("fu", "[oe-]*"), ("x", "ok")],
                     nontrivial=lambda req, A, B: len(req.split("\t")[3]) >= 6),
